@@ -49,7 +49,7 @@ Expected(X, st) ==
          ELSE <<"none", "none", BypassF(X, s, x), TRUE>>
     [] st.op = "keep_only" -> <<"none", "none", KeepOnlyF(U, X, s, A), TRUE>>
     [] st.op = "keep_between" -> <<"none", "none", KeepBetweenF(U, X, s, A, B, st.f1, st.f2), TRUE>>
-    [] st.op \in {"query", "display"} -> <<"none", "none", X, TRUE>>
+    [] st.op \in {"query", "display", "scan"} -> <<"none", "none", X, TRUE>>
     [] OTHER -> <<"unknown-op", "none", X, TRUE>>
 
 (* first failing clause of the edit part of step st, "" if none            *)
